@@ -134,7 +134,8 @@ def mutations(s):
                     dup["fields"] = list(dup["fields"]) + [{"name": "dup__", "type": _strip_inner_names(copy.deepcopy(node))}]
                     mut(dup, "redefined-nested")
             if t == "enum":
-                for bad, lab in (("1A", "digit-first"), ("a-b", "dash"), ("", "empty"), ("é", "non-ascii"), ("a b", "space")):
+                for bad, lab in (("1A", "digit-first"), ("a-b", "dash"), ("", "empty"), ("é", "non-ascii"), ("a b", "space"), ("A\n", "trailing-newline"),
+                                 ("\nA", "leading-newline"), ("A\x00", "nul"), ("A.B", "dot"), (" A", "leading-space"), ("A ", "trailing-space"), ("A\r", "trailing-cr")):
                     mut(dict(node, symbols=node["symbols"][:1] + [bad]), "enum-symbol-" + lab)
                 mut(dict(node, symbols=node["symbols"] + [node["symbols"][0]]), "enum-symbol-duplicate")
                 mut(dict(node, symbols=node["symbols"] + [5]), "enum-symbol-non-string")
